@@ -13,7 +13,7 @@ from .reportlib import tr
 from .common import Hist, make_cfg, method_tree, slots_of
 
 PROPS = ("C13", "C19")
-BUDGET = {"quick": 1500, "thorough": 5400}
+BUDGET = {"quick": 1500, "thorough": 1500}
 CHUNK = 40
 
 
